@@ -132,6 +132,22 @@ pub fn cases(tier: Tier) -> Vec<Case> {
         }
     }
     out.extend(unary_compositions(&v));
+    // `not OP` behind two operators of rising precedence (the negation belongs to the whole
+    // comparison, whatever the parser had to unwind to get there)
+    {
+        let small = alphabet_small();
+        for op in ALL_INFIX {
+            if op.ends_with('=') && !matches!(*op, "==" | "!=" | "<=" | ">=") {
+                continue;
+            }
+            for (i, a) in small.iter().enumerate() {
+                for d4 in small.iter().skip(i % 3).step_by(3) {
+                    out.push(Case { program: format!("a + 2 * 3 not {} d", op), bindings: bind(&["a", "d"], &[a, d4]), key: format!("not-{}-after-sum-of-product:{}:{}", op, class(a), class(d4)), lenient_err: false });
+                    out.push(Case { program: format!("true || false && a not {} d", op), bindings: bind(&["a", "d"], &[a, d4]), key: format!("not-{}-after-or-of-and:{}:{}", op, class(a), class(d4)), lenient_err: false });
+                }
+            }
+        }
+    }
     // depth-2 compositions (a op1 b) op2 c
     let ops2 = ["+", "-", "*", "/", "%", "<", "<=", "==", "!=", "&&", "||", "|", "&", "<<", ">>", "in", "beginWith"];
     let small = if tier == Tier::Quick { alphabet_small() } else { alphabet() };
